@@ -127,6 +127,27 @@ func c02Monitor(c *plCfg, q *plQuery, o *plObs, viaCache bool) (ok bool, msg str
 	host := strings.ToLower(strings.TrimSuffix(q.Name, "."))
 	protection, filteringOn, _, _, _ := plEffective(c, q)
 	res := o.Result
+	if res != nil && (res.Reason == filtering.Rewritten || res.Reason == filtering.RewrittenRule ||
+		res.Reason == filtering.FilteredSafeSearch || res.Reason == filtering.RewrittenAutoHosts) {
+		// the property's premise excludes rewritten questions: the answer for
+		// the rewrite's target is delivered behind the CNAME and is not filtered
+		classes = append(classes, "rewritten-question")
+		if o.OrigKept {
+			return false, fmt.Sprintf("a rewritten question (%s) was response-filtered", res.Reason), classes
+		}
+		if len(o.Calls) == 1 {
+			if up := q.Extra[strings.ToLower(o.Calls[0].Name)]; up != nil {
+				if len(o.Res.Answer) != len(up.Answer)+1 || !plSameRecords(o.Res.Answer[1:], up.Answer, false) {
+					return false, fmt.Sprintf("rewritten question: delivered %v, the upstream gave %v for the target", o.Res.Answer, up.Answer), classes
+				}
+				classes = append(classes, "rewritten-answer-delivered-unfiltered")
+			}
+		}
+		return true, "", classes
+	}
+	if (c.DDR && q.Name == ddrHostFQDN) || plIsDHCPHostQuestion(c, q) || q.RDNS != (netip.Prefix{}) {
+		return true, "", []string{"answered-before-filtering"}
+	}
 	respBlocked := res != nil && res.IsFiltered && o.OrigKept
 	// viaCache: a repeated question whose first ask was forwarded; the proxy
 	// cache may answer in place of the upstream
@@ -270,7 +291,7 @@ func TestVerifC02(t *testing.T) {
 		ok, msg, classes := c02Monitor(ps.cfg, q, &o, viaCache && ctor == "CRepeat")
 		res := o.Result
 		c := vfCase{
-			Coq:        plCaseCoqAs(ctor, ps.cfg, q, &o),
+			Coq:        plCaseCoqAs(ctor, ps, q, &o),
 			Nontrivial: res != nil && res.IsFiltered && o.OrigKept || len(q.Answer.Answer) > 0,
 			Classes:    append(classes, extra...),
 			MonitorOK:  ok,
@@ -309,7 +330,7 @@ func TestVerifC02(t *testing.T) {
 			}
 			if bad != "" {
 				out.Emit(vfCase{
-					Coq: "(CRepeat " + strings.TrimPrefix(plCaseCoqAs("CRepeat", ps.cfg, q, &o), "(CRepeat "), Key: "repeat-" + vfHash(ps.cfg.Desc(), q.Name, q.QType, when),
+					Coq: "(CRepeat " + strings.TrimPrefix(plCaseCoqAs("CRepeat", ps, q, &o), "(CRepeat "), Key: "repeat-" + vfHash(ps.cfg.Desc(), q.Name, q.QType, when),
 					Nontrivial: true, Classes: []string{"repeat-differs"}, MonitorOK: false,
 					MonitorMsg: fmt.Sprintf("the same question asked again got another verdict (%s): %s [config %v; query %s %s from %s; upstream answer %v]",
 						when, bad, ps.cfg.Desc(), q.Name, dns.TypeToString[q.QType], q.Addr, q.Answer.Answer),
@@ -415,6 +436,82 @@ func TestVerifC02(t *testing.T) {
 		repeat(ps2, &plQuery{Name: "c.example.", QType: dns.TypeA, Addr: cli, Answer: plMsg(0, plA("c.example.", 352, "93.184.216.34"))}, "prelude-repeat-clean")
 		repeat(ps2, &plQuery{Name: "h.example.", QType: dns.TypeHTTPS, Addr: cli,
 			Answer: plMsg(0, plHTTPS("h.example.", 353, []string{"93.184.216.34"}, []string{"2001:db8::1"}, true))}, "prelude-repeat-blocked-hint")
+	}
+
+	{
+		// round 2: rewritten questions and $dnsrewrite rules next to response filtering
+		tgt := func(name string, rrs ...dns.RR) map[string]*dns.Msg { return map[string]*dns.Msg{name: plMsg(0, rrs...)} }
+		c := base()
+		c.Rewrites = []plRewrite{{"x.test", "cdn.example"}}
+		ps := plNewServer(t, c)
+		emit(ps, &plQuery{Name: "x.test.", QType: dns.TypeA, Addr: cli, Answer: plMsg(0, good),
+			Extra: tgt("cdn.example.", plCNAME("cdn.example.", 360, "b.a.test."), plA("b.a.test.", 361, "1.2.3.4"))}, "prelude-rewritten-answer-not-filtered")
+		c2 := base()
+		c2.Custom = []*vfRule{{ID: 0, Pattern: "||r.io^"}, {ID: 1, Pattern: "||r.io^", Drw: "addr", DrwAddr: netip.MustParseAddr("192.0.2.60")},
+			{ID: 2, Pattern: "||s.io^"}, {ID: 3, Pattern: "||t.io^", Drw: "cname", DrwName: "cdn.example"}}
+		ps2 := plNewServer(t, c2)
+		emit(ps2, &plQuery{Name: "x.test.", QType: dns.TypeA, Addr: cli, Answer: plMsg(0, plCNAME("x.test.", 362, "w.r.io."), good)}, "prelude-dnsrewrite-shadows-block")
+		emit(ps2, &plQuery{Name: "x.test.", QType: dns.TypeA, Addr: cli, Answer: plMsg(0, plCNAME("x.test.", 363, "w.s.io."), good)}, "prelude-blocked-without-dnsrewrite")
+		emit(ps2, &plQuery{Name: "t.io.", QType: dns.TypeA, Addr: cli, Answer: plMsg(0, good),
+			Extra: tgt("cdn.example.", plA("cdn.example.", 364, "1.2.3.4"))}, "prelude-dnsrewrite-cname-answer-not-filtered")
+		c3 := base()
+		c3.SafeSearch = true
+		emit(plNewServer(t, c3), &plQuery{Name: "www.google.com.", QType: dns.TypeA, Addr: cli, Answer: plMsg(0, good),
+			Extra: tgt("forcesafesearch.google.com.", plA("forcesafesearch.google.com.", 365, "1.2.3.4"))}, "prelude-safesearch-answer-not-filtered")
+	}
+	{
+		// a timed protection pause that has run out: protection is on again
+		// from the very first query after the deadline (one fresh server per
+		// question, so every question is the first one)
+		for i, ans := range []*dns.Msg{plMsg(0, bad, good), plMsg(0, good, badA), plMsg(0, noise, good),
+			plMsg(0, plHTTPS("x.test.", 370, []string{"93.184.216.34", "1.2.3.4"}, nil, true))} {
+			c := base()
+			c.ProtEnabled, c.Deadline = false, 2
+			qt := uint16(dns.TypeA)
+			if i == 3 {
+				qt = dns.TypeHTTPS
+			}
+			emit(plNewServer(t, c), &plQuery{Name: "x.test.", QType: qt, Addr: cli, Answer: ans}, "prelude-pause-expired-first-query")
+		}
+		nP := out.Scale(25, 500)
+		for i := 0; i < nP; i++ {
+			c := plGenCfg(rnd, c02Targets)
+			c.ProtEnabled, c.Deadline, c.Filtering = rnd.Chance(1, 3), 2, true
+			c.Allow = nil
+			for _, r := range c.BlockRules() {
+				r.White = false
+				r.Badfilter = false
+			}
+			c.Block = append(c.Block, &vfRule{ID: 190, Pattern: "||" + vfPick(rnd, c02Targets) + "^"})
+			name := vfPick(rnd, []string{"www.example.", "x.test.", "cdn.example."})
+			qt := vfPick(rnd, []uint16{dns.TypeA, dns.TypeAAAA, dns.TypeHTTPS})
+			emit(plNewServer(t, c), &plQuery{Name: name, QType: qt, Addr: cli, Answer: c02Answer(rnd, name, qt)}, "pause-expired-first-query")
+		}
+	}
+	// --- round 2 random: all features on, answers with offending records for names and rewrite targets
+	nX := out.Scale(120, 2400)
+	for i := 0; i < nX; i++ {
+		c := plGenCfgX(rnd)
+		if rnd.Chance(2, 3) {
+			c.ProtEnabled, c.Deadline, c.Filtering = true, 0, true
+		}
+		c.Block = append(c.Block, &vfRule{ID: 190, Pattern: "||" + vfPick(rnd, c02Targets) + "^"})
+		ps := plNewServer(t, c)
+		for k := 0; k < 10; k++ {
+			q := plGenQueryX(rnd, c)
+			if q.QType == dns.TypeSVCB || q.QType == dns.TypePTR {
+				q.QType = dns.TypeA
+				q.RDNS = netip.Prefix{}
+				q.Name = vfMixCase(rnd, vfPick(rnd, plXNames)) + "."
+			}
+			q.Answer = c02Answer(rnd, q.Name, q.QType)
+			for n := range q.Extra {
+				if q.Extra[n] != nil {
+					q.Extra[n] = c02Answer(rnd, n, q.QType)
+				}
+			}
+			emit(ps, q)
+		}
 	}
 
 	// --- hint-focused configurations: allow-listed and blocked addresses side by side
